@@ -136,7 +136,10 @@ fn main() {
         Some("gen") => {
             let tier = args.get(2).map(|s| s.as_str()).unwrap_or("quick");
             let n: usize = args.get(3).and_then(|s| s.parse().ok()).unwrap_or(if tier == "thorough" { 100_000 } else { 3_000 });
+            // consecutive seeds of `Rng::new` give the same stream shifted by one draw: decorrelate
             let mut rng = Rng::new(seed_from_env());
+            let mixed = rng.next() ^ seed_from_env().wrapping_mul(0xD6E8_FEB8_6659_FD93).rotate_left(23);
+            let mut rng = Rng(mixed);
             for i in 0..n {
                 let (ctx, prog, stats) = gen_case(&mut rng);
                 let src = b_src(&prog);
